@@ -34,7 +34,7 @@ import zipfile
 from .common import C, Nat, Opt, Raw, Rec, coq
 
 ID = "C20"
-COQ_FILES = ["C20/Model.v", "C20/Spec.v", "C20/Check.v", "C20/Proofs.v", "C20/Property.v"]
+COQ_FILES = ["C20/Model.v", "C20/Spec.v", "C20/Check.v", "C20/Proofs.v", "C20/CrossFs.v", "C20/Property.v"]
 COQ_PRELUDE = ("From Coq Require Import ZArith List String Bool.\nImport ListNotations.\n"
                "From KD Require Import C20.Model C20.Spec C20.Check.\nOpen Scope Z_scope.\n")
 COQ_CHECK = "check"
@@ -97,6 +97,16 @@ ASSUMPTIONS = [
     "end marker -- in particular the one that returns -- has seen EVERY entry that was in the destination when it "
     "started.  Calls killed earlier may have seen any part of the listing (killed_before_end_marker_needs_no_honest_"
     "listing); the stronger 'every call sees an honest listing' implies it (honest_listings_suffice)",
+    "file systems: the model's Rename is ATOMIC - an assumption that holds for rename(2) between two names in ONE directory "
+    "(siblings are on one file system).  Across file systems a rename / shutil.move is copy + delete and NOT atomic "
+    "(coq/C20/CrossFs.v, theorem move_across_file_systems_is_not_atomic: killed after the first operation of the fallback, "
+    "any state without dst has become one where dst exists without its start marker); the "
+    "code is therefore required to rename only between siblings: the oracle rejects every recorded rename whose source and "
+    "destination are not in the same directory (or one of them outside the sandbox), and the crash-point histories are also "
+    "run with local_path and the default temporary directory ($TMPDIR / tempfile.gettempdir()) on DIFFERENT file systems "
+    "(case key xfs: `local` = sandbox on the second file system found among /dev/shm, /run/user/<uid>, /var/tmp, /run, $HOME, "
+    "cwd, temporary directory on the default one; `tmpdir` = the reverse; `sim` = one file system, os.rename / os.replace "
+    "between different directories fail with EXDEV - also the fallback when the machine has no second writable file system)",
     "one process at a time works on a destination.  NOT covered: two concurrent copiers -- the model itself refutes the "
     "property there (theorem concurrent_copiers_are_not_covered: A returns was_copied=True with a file missing that B "
     "deleted) and the real code is measured on every run (histogram keys `measure=concurrent_copiers`: with a start "
@@ -113,8 +123,10 @@ ASSUMPTIONS = [
     "<src_path>.zip - also when the last component of relative_path contains dots (fixes/C20_dotted_relative_path.patch; "
     "generated: 'ds.v2', 'a.b/ds.v1.5', 'v.1/my ds..x', with and without an unrelated archive under the name with_suffix('.zip') "
     "would have produced)",
-    "symbolic links in a plain source are followed (shutil.copytree default): the copy holds the content the link "
-    "points to; links that cannot be followed (dangling, loops) make every call raise shutil.Error (measured: "
+    "symbolic links in a plain source are followed (shutil.copytree default) for EVERY num_workers: the copy holds the "
+    "content the link points to - links to files and to directories, to targets inside the source tree and outside of it, "
+    "written as relative or absolute paths, at the top level and nested (generated without loops: a linked-to directory "
+    "holds no link that leads back); links that cannot be followed (dangling, loops) make every call raise shutil.Error (measured: "
     "`measure=dangling_symlink`, `measure=symlink_loop`) -- the call never returns normally, nothing is claimed",
     "a folder of zips yields the union of the archives' members; other files in it (README) are not copied (by design "
     "of folder_contains_mostly_zips)",
@@ -127,6 +139,13 @@ RULE = ("names: 40% of the random trees and all cross-format trees draw file / d
         "thorough 40) as plain folder, single zip and folder of zips for both functions, each judged against the SAME tree "
         "(uninterrupted and with 1-2 killed calls before), relative_path also with spaces and dots (dotted last component with a "
         "single-zip source: with / without a decoy archive named like the relative_path cut at its last dot); "
+        "cross-file-system crash points (xfs_cases): the directed configurations (both functions x plain / zip / zips) with "
+        "local_path and the default temporary directory on different file systems (local on /dev/shm | TMPDIR on /dev/shm | "
+        "simulated EXDEV; quick: one mode per configuration, thorough: all three): every kill point of the first call and kill "
+        "points of a call over an interrupted copy; 3 corpus cases pin the window of create_folder_with_file; every recorded "
+        "rename must be between siblings.  plain_links_matrix: plain sources with symbolic links to directories / files, inside / "
+        "outside the tree, relative / absolute, top level / nested (directed tree with all kinds + random ones) x num_workers "
+        "0..4 x both functions; random plain sources draw num_workers from 0..4 too and hold such links in 35% of the cases; "
         "sources: random trees (depth <= 3, empty files, empty directories, now and then a symbolic link to a sibling) as "
         "plain folder / single zip / folder of zips (+ README), for both functions, relative_path none / 'ds' / 'a/ds' "
         "(image: also 'ds.zip'), local root present or absent, destination fresh or a manual folder; histories: EVERY kill "
@@ -160,8 +179,11 @@ class Tracer:
     P1 = [("mkdir", "mkdir"), ("rmdir", "rmdir"), ("unlink", "unlink"), ("remove", "unlink"), ("truncate", "truncate")]
     P2 = [("rename", "rename"), ("replace", "rename"), ("symlink", "symlink"), ("link", "link")]
 
-    def __init__(self, root, kill_at=None, torn=False):
+    def __init__(self, root, kill_at=None, torn=False, exdev=False):
         self.root = os.path.realpath(root)
+        # exdev: SIMULATED second file system (for sandboxes without one): os.rename / os.replace between two different
+        # directories fail with EXDEV like rename(2) across file systems does; renames between siblings work
+        self.exdev = exdev
         self.kill_at = kill_at
         self.torn = torn         # the kill_at-th operation, if it is a write of >= 2 bytes, only gets half of them out
         self.torn_n = None       # ... the number of bytes that were written in that case
@@ -215,6 +237,10 @@ class Tracer:
 
         def w(src, dst, *a, **kw):
             r1, r2 = self._rel(src), self._rel(dst)
+            if self.exdev and tag == "rename" and (os.path.dirname(os.path.abspath(os.fsdecode(os.fspath(src))))
+                                                   != os.path.dirname(os.path.abspath(os.fsdecode(os.fspath(dst))))):
+                import errno
+                raise OSError(errno.EXDEV, "Invalid cross-device link (simulated)", os.fspath(src), None, os.fspath(dst))
             if r1 is None and r2 is None:
                 return real(src, dst, *a, **kw)
             self._pre([tag, r1, r2])
@@ -530,12 +556,18 @@ def gen_source(rng, fmt, variant):
         t = gen_tree(rng, rng.choice([1, 2, 2, 3]))
         if not t:
             t = [["a.txt", {"f": [1]}]]
-        if rng.random() < 0.2:
+        u = rng.random()
+        if u < 0.15:
             # a symbolic link to a sibling file or directory (copytree follows it)
             nm, node = rng.choice(t)
             if len(nm.encode()) < 240:
                 t.append(["link_" + nm, {"l": nm}])
             rng.shuffle(t)
+        elif u < 0.5:
+            # links to files and directories inside and outside of the source tree, relative and absolute, at any depth
+            ext = gen_tree(rng, rng.choice([1, 2])) or [["one.txt", {"f": [49]}]]
+            add_links(rng, t, ext, rng.choice([1, 2, 3]))
+            return {"tree": t, "ext": ext}
         return {"tree": t}
     if fmt == "zip":
         ms = tree_members(gen_tree(rng, rng.choice([1, 2, 2])), rng)
@@ -555,6 +587,106 @@ def gen_source(rng, fmt, variant):
             items.append(["LICENSE.txt", {"f": []}])
     rng.shuffle(items)
     return {"items": items}
+
+
+def _dirs_of(tree, pre=()):
+    yield pre, tree
+    for nm, node in tree:
+        if "d" in node:
+            yield from _dirs_of(node["d"], pre + (nm,))
+
+
+def _nodes_of(tree, pre=()):
+    for nm, node in tree:
+        if "l" in node:
+            continue
+        yield pre + (nm,), node
+        if "d" in node:
+            yield from _nodes_of(node["d"], pre + (nm,))
+
+
+def add_links(rng, tree, ext, n):
+    """adds up to n symbolic links (in place) at random directories of the tree: to a file or a directory, inside the tree
+    or in the tree `ext` outside of the source, written as absolute or relative path.  No loops: a directory that is the
+    target of a link gets no links below it, and a directory with a link below it is not chosen as a target"""
+    frozen, linked, added = [], [], 0
+    for i in range(4 * n):
+        if added >= n:
+            break
+        where = rng.choice(["in", "in", "ext"])
+        want_dir = rng.random() < 0.6
+        locs = [(p, ch) for p, ch in _dirs_of(tree) if not any(p[:len(f)] == f for f in frozen)]
+        if not locs:
+            break
+        loc, children = rng.choice(locs)
+        if where == "in":
+            cands = [(p, nd) for p, nd in _nodes_of(tree) if ("d" in nd) == want_dir
+                     and not any(l[:len(p)] == p for l in linked + [loc])]
+        else:
+            cands = [(p, nd) for p, nd in _nodes_of(ext) if ("d" in nd) == want_dir]
+        if not cands:
+            continue
+        tp, tnode = rng.choice(cands)
+        nm = rng.choice(["ln%d", "link %d", ".l%d", "l..%d"]) % i
+        if any(x[0] == nm for x in children):
+            continue
+        children.insert(rng.randrange(len(children) + 1), [nm, {"l": {"where": where, "path": list(tp),
+                                                                     "abs": rng.random() < 0.4}}])
+        linked.append(loc)
+        if where == "in" and "d" in tnode:
+            frozen.append(tp)
+        added += 1
+    return added
+
+
+def prune_links(src):
+    """removes structured links whose target no longer exists (after shrinking), repeatedly"""
+    def find(tree, comps):
+        for nm, node in tree:
+            if nm == comps[0] and "l" not in node:
+                return True if len(comps) == 1 else ("d" in node and find(node["d"], comps[1:]))
+        return False
+
+    def prune(tree):
+        out = []
+        for nm, node in tree:
+            if "l" in node and isinstance(node["l"], dict):
+                L = node["l"]
+                if not find(src.get("ext") or [] if L["where"] == "ext" else src["tree"], L["path"]):
+                    continue
+            out.append([nm, {"d": prune(node["d"])}] if "d" in node else [nm, node])
+        return out
+    return {**src, "tree": prune(src["tree"])}
+
+
+def has_links(tree):
+    return any("l" in node or ("d" in node and has_links(node["d"])) for _, node in tree)
+
+
+def link_kinds(src):
+    """feature keys: which kinds of links a plain source holds"""
+    out = set()
+
+    def find(tree, comps):
+        for nm, node in tree:
+            if nm == comps[0]:
+                return node if len(comps) == 1 else find(node.get("d", []), comps[1:])
+        return None
+
+    def walk(tree, depth):
+        for nm, node in tree:
+            if "l" in node:
+                L = node["l"]
+                if isinstance(L, dict):
+                    t = find(src.get("ext") or [] if L["where"] == "ext" else src["tree"], L["path"])
+                    out.add("link:%s-%s-%s%s" % ("dir" if t and "d" in t else "file", "inside" if L["where"] == "in" else
+                                                 "outside", "abs" if L["abs"] else "rel", "" if depth == 0 else "-nested"))
+                else:
+                    out.add("link:sibling")
+            elif "d" in node:
+                walk(node["d"], depth + 1)
+    walk(src.get("tree") or [], 0)
+    return sorted(out)
 
 
 def zips_source(rng, variant, nz):
@@ -594,10 +726,14 @@ def expected_content(case):
         here = tree if here is None else here
         for nm, node in tree:
             if "l" in node:
-                # shutil.copytree(symlinks=False) follows links: what is copied is what the link points to
-                # (generated links point to a sibling in the same directory)
+                # links are FOLLOWED (shutil.copytree(symlinks=False)): what is copied is what the link points to - a
+                # sibling (string form), any file / directory of the source tree or of the tree outside the source
                 try:
-                    node = find(here, node["l"].split("/"))
+                    L = node["l"]
+                    if isinstance(L, dict):
+                        node = find(src.get("ext") or [] if L["where"] == "ext" else src["tree"], L["path"])
+                    else:
+                        node = find(here, L.split("/"))
                 except KeyError:        # a link that cannot be followed (measurement cases only): nothing to expect
                     continue
             if "f" in node:
@@ -632,17 +768,25 @@ def _write_zip(path, members):
                 z.writestr("/".join(p), bytes(data))
 
 
-def _write_tree(base, tree):
+def _write_tree(base, tree, roots=None):
+    """roots = {"in": the source directory, "ext": a directory outside the source}: where structured links point to"""
     os.makedirs(base, exist_ok=True)
     for nm, node in tree:
         p = os.path.join(base, nm)
         if "l" in node:
-            os.symlink(node["l"], p)      # relative target, resolved from the directory that contains the link
+            L = node["l"]
+            if isinstance(L, dict):
+                # {"where": "in" | "ext", "path": [...], "abs": bool}: a link to a file / directory inside the source tree
+                # or outside of it, written as an absolute path or relative to the directory that contains the link
+                target = os.path.join(roots[L["where"]], *L["path"])
+                os.symlink(target if L["abs"] else os.path.relpath(target, base), p)
+            else:
+                os.symlink(L, p)          # relative target, resolved from the directory that contains the link
         elif "f" in node:
             with open(p, "wb") as f:
                 f.write(bytes(node["f"]))
         else:
-            _write_tree(p, node["d"])
+            _write_tree(p, node["d"], roots)
 
 
 def dst_comps(case):
@@ -650,14 +794,61 @@ def dst_comps(case):
     return ["l"] + (rel.split("/") if rel else [])
 
 
+_AUX = {}          # sandbox root -> {"tmpdir": the temporary directory the calls of this sandbox see, "exdev": simulated}
+_SECOND_FS = []
+
+
+def second_fs():
+    """a writable directory on ANOTHER file system than the default temporary directory (None if the machine has none)"""
+    if not _SECOND_FS:
+        found = None
+        try:
+            dev0 = os.stat(tempfile.gettempdir()).st_dev
+            cands = ["/dev/shm", "/run/user/%d" % os.getuid(), "/var/tmp", "/run", os.path.expanduser("~"), os.getcwd()]
+            for d in cands:
+                if os.path.isdir(d) and os.access(d, os.W_OK | os.X_OK) and os.stat(d).st_dev != dev0:
+                    found = d
+                    break
+        except OSError:
+            found = None
+        _SECOND_FS.append(found)
+    return _SECOND_FS[0]
+
+
+def xfs_mode(case):
+    """case["xfs"]: None (everything on the default temporary file system, tempfile untouched) |
+    "local"  = the sandbox (global and LOCAL side) is on a second file system, the default temporary directory is not |
+    "tmpdir" = the sandbox is on the default one, the default temporary directory ($TMPDIR / tempfile.tempdir) on a second |
+    "sim"    = one file system, os.rename between different directories fails with EXDEV (simulated second file system).
+    "local" / "tmpdir" fall back to "sim" on a machine without a second writable file system"""
+    m = case.get("xfs")
+    if m in ("local", "tmpdir") and second_fs() is None:
+        return "sim"
+    return m
+
+
+def cleanup_sandbox(root):
+    aux = _AUX.pop(root, None)
+    if aux and aux.get("tmpdir"):
+        shutil.rmtree(aux["tmpdir"], ignore_errors=True)
+    shutil.rmtree(root, ignore_errors=True)
+
+
 def build_sandbox(case):
-    root = os.path.realpath(tempfile.mkdtemp(prefix="kd_c20_"))
+    mode = xfs_mode(case)
+    root = os.path.realpath(tempfile.mkdtemp(prefix="kd_c20_", dir=second_fs() if mode == "local" else None))
+    if mode:
+        _AUX[root] = {"tmpdir": os.path.realpath(tempfile.mkdtemp(prefix="kd_c20_tmp_",
+                                                                  dir=second_fs() if mode == "tmpdir" else None)),
+                      "exdev": mode == "sim"}
     g = os.path.join(root, "g")
     rel = case["rel"]
     sp = os.path.join(g, rel) if rel else g
     fmt, src = case["fmt"], case["src"]
     if fmt == "plain":
-        _write_tree(sp, src["tree"])
+        if src.get("ext"):
+            _write_tree(os.path.join(root, "ext"), src["ext"])
+        _write_tree(sp, src["tree"], {"in": sp, "ext": os.path.join(root, "ext")})
         if case.get("also_zip"):
             _write_zip(sp + ".zip", [[["other.txt"], [1, 2, 3]]])
     elif fmt == "zip":
@@ -690,7 +881,7 @@ def build_sandbox(case):
     return root, g, l, sp
 
 
-def snapshot(root, skip=("g", "g.zip")):
+def snapshot(root, skip=("g", "g.zip", "ext")):
     """[[path components, None | [bytes]]] of everything below root except the global side, root first"""
     out = [[[], None]]
     for d, ds, fs in os.walk(root):
@@ -780,14 +971,27 @@ def _rel_arg(case):
 
 def one_call(case, fn, root, g, l, kill_at):
     att = {"kill_at": kill_at, "ret": None, "error": None}
-    with Tracer(root, kill_at, torn=bool(case.get("torn")) and kill_at is not None) as t:
-        try:
-            r = fn(g, l, relative_path=_rel_arg(case), num_workers=case.get("workers", 0))
-            att["ret"] = _result(case, r)
-        except Kill:
-            pass
-        except Exception as e:  # an OSError etc. is an abnormal return, recorded
-            att["error"] = repr(e)[:300]
+    aux = _AUX.get(root) or {}
+    saved_tmp = (tempfile.tempdir, os.environ.get("TMPDIR"))
+    if aux.get("tmpdir"):
+        # the default temporary directory this call sees (cross-file-system cases): tempfile.* and $TMPDIR
+        tempfile.tempdir = aux["tmpdir"]
+        os.environ["TMPDIR"] = aux["tmpdir"]
+    try:
+        with Tracer(root, kill_at, torn=bool(case.get("torn")) and kill_at is not None, exdev=bool(aux.get("exdev"))) as t:
+            try:
+                r = fn(g, l, relative_path=_rel_arg(case), num_workers=case.get("workers", 0))
+                att["ret"] = _result(case, r)
+            except Kill:
+                pass
+            except Exception as e:  # an OSError etc. is an abnormal return, recorded
+                att["error"] = repr(e)[:300]
+    finally:
+        tempfile.tempdir = saved_tmp[0]
+        if saved_tmp[1] is None:
+            os.environ.pop("TMPDIR", None)
+        else:
+            os.environ["TMPDIR"] = saved_tmp[1]
     att["trace"] = t.ops
     att["zombie"] = t.zombie
     att["pools"] = t.pools
@@ -905,7 +1109,7 @@ def run_concurrent(case):
         return {"concurrent": {"procs": outs, "after": after,
                                "last_call": {"ret": last["ret"], "error": last["error"]}, "final": final}}
     finally:
-        shutil.rmtree(root, ignore_errors=True)
+        cleanup_sandbox(root)
 
 
 def _conc_summary(c):
@@ -1084,7 +1288,10 @@ def run_impl(case):
     root, g, l, sp = build_sandbox(case)
     try:
         obs = {"s0": snapshot(root), "src": listing(case, sp), "attempts": []}
-        gsnap0 = snapshot(root, skip=tuple(x for x in os.listdir(root) if x not in ("g", "g.zip")))
+        if case.get("xfs"):
+            obs["xfs"] = "%s: sandbox on %s, temporary directory on %s" % (
+                xfs_mode(case), os.path.dirname(root), os.path.dirname((_AUX.get(root) or {}).get("tmpdir") or "?"))
+        gsnap0 = snapshot(root, skip=tuple(x for x in os.listdir(root) if x not in ("g", "g.zip", "ext")))
         for k in case["kills"]:
             obs["attempts"].append(one_call(case, fn, root, g, l, k))
         if case.get("strace"):
@@ -1112,10 +1319,10 @@ def run_impl(case):
         for _ in range(2):
             obs["attempts"].append(one_call(case, fn, root, g, l, None))
         obs["global_unchanged"] = gsnap0 == snapshot(root, skip=tuple(x for x in os.listdir(root)
-                                                                       if x not in ("g", "g.zip")))
+                                                                       if x not in ("g", "g.zip", "ext")))
         return obs
     finally:
-        shutil.rmtree(root, ignore_errors=True)
+        cleanup_sandbox(root)
 
 
 # ---------------------------------------------------------------------------
@@ -1150,10 +1357,20 @@ def oracle_core(case, obs):
     for i, att in enumerate(obs["attempts"]):
         cur = _as_dict(att["tree"])
         tag = f"call {i + 1} ({'killed at ' + str(att['kill_at']) if att['ret'] is None else 'returned'})"
+        if case.get("xfs"):
+            tag = f"[{obs.get('xfs')}; history: kills {case['kills']} then two uninterrupted calls] " + tag
         if att["zombie"]:
             return f"{tag}: file-system operation during the unwinding after the kill: {att['zombie'][:3]}"
         if att["error"]:
             return f"{tag}: unexpected exception {att['error']}"
+        for op in att["trace"] or []:
+            # the model's atomic Rename is an assumption about SIBLINGS (same directory => same file system); a rename /
+            # move between different directories may cross file systems, where it is a copy followed by a delete
+            if op[0] == "rename" and (op[1] is None or op[2] is None or op[1][:-1] != op[2][:-1]):
+                return (f"{tag}: renames {'<outside the sandbox>' if op[1] is None else '/'.join(op[1])} to "
+                        f"{'<outside the sandbox>' if op[2] is None else '/'.join(op[2])}: not two names in one directory. "
+                        "Only a rename between siblings is atomic on every layout (across file systems it is copy + delete: "
+                        "a kill in between leaves a half-made destination); crash-safety of the start marker rests on it")
         nops = None if att["trace"] is None else len(att["trace"])
         prev_done = all(dst + x in prev for x in ((), (SNAME,), (ENAME,)))
         if manual or prev_done:
@@ -1367,6 +1584,8 @@ def logical_bases(rng, tree, tag):
             extra = {}
             if fmt == "zip" and rel is not None and "." in rel.split("/")[-1] and rng.random() < 0.5:
                 extra["decoy_zip"] = rel.split("/")[-1].rsplit(".", 1)[0] + ".zip"     # what with_suffix(".zip") would name
+            if fmt == "plain":
+                extra["workers"] = rng.choice([0, 1, 2, 3, 4])
             out.append(base_case(variant, fmt, rel, srcs[fmt], local_exists=rng.random() < 0.5, logical=tree, ltag=tag, **extra))
     return out
 
@@ -1399,6 +1618,76 @@ def rich_bases(rng, n):
     return out
 
 
+LINK_TREE = [
+    ["a.txt", {"f": [65]}],
+    ["cls0", {"d": [["x.bin", {"f": [1, 2]}], ["deep", {"d": [["y", {"f": [3]}], ["e", {"f": []}]]}]]}],
+    ["cls1", {"d": [["z", {"f": [9]}],
+                    ["up_file", {"l": {"where": "in", "path": ["a.txt"], "abs": False}}],
+                    ["side_dir", {"l": {"where": "in", "path": ["cls0", "deep"], "abs": False}}],
+                    ["out_dir", {"l": {"where": "ext", "path": ["shared", "nest"], "abs": False}}]]}],
+    ["empty", {"d": []}],
+    ["l_dir_rel", {"l": {"where": "in", "path": ["cls0"], "abs": False}}],
+    ["l_dir_abs", {"l": {"where": "in", "path": ["cls0", "deep"], "abs": True}}],
+    ["l_file_rel", {"l": {"where": "in", "path": ["cls0", "x.bin"], "abs": False}}],
+    ["l_file_abs", {"l": {"where": "in", "path": ["a.txt"], "abs": True}}],
+    ["x_dir_rel", {"l": {"where": "ext", "path": ["shared"], "abs": False}}],
+    ["x_dir_abs", {"l": {"where": "ext", "path": ["shared"], "abs": True}}],
+    ["x_file_rel", {"l": {"where": "ext", "path": ["one.txt"], "abs": False}}],
+    ["x_file_abs", {"l": {"where": "ext", "path": ["shared", "s0.dat"], "abs": True}}],
+    ["l_empty_dir", {"l": {"where": "in", "path": ["empty"], "abs": False}}],
+]
+LINK_EXT = [["shared", {"d": [["s0.dat", {"f": [7, 7]}], ["nest", {"d": [["s1", {"f": [8]}]]}]]}], ["one.txt", {"f": [49]}]]
+
+
+def plain_links_matrix(rng, tier):
+    """plain-folder sources with symbolic links to directories and files, inside and outside of the tree, relative and
+    absolute, at the top and nested: the directed tree LINK_TREE and random ones, for EVERY num_workers 0..4 and both
+    functions, uninterrupted and (some) with killed calls before; judged against the source with links followed"""
+    out = []
+    for w in range(5):
+        for variant in ("folder", "image"):
+            rel = rng.choice([None, "ds", "a/ds"])
+            b = base_case(variant, "plain", rel, {"tree": LINK_TREE, "ext": LINK_EXT}, local_exists=rng.random() < 0.5,
+                          workers=w, probe="plain_links")
+            out.append(with_kills(b, []))
+            if tier == "thorough" or (w + (variant == "image")) % 3 == 0:
+                n = max(1, count_ops(b))
+                out.append(with_kills(b, [rng.randint(1, n)]))
+            for _ in range(1 if tier == "quick" else 4):
+                t = gen_tree(rng, rng.choice([2, 3])) or [["a.txt", {"f": [1]}]]
+                ext = gen_tree(rng, 2) or [["one.txt", {"f": [49]}]]
+                add_links(rng, t, ext, rng.choice([1, 2, 4]))
+                b = base_case(variant, "plain", rng.choice([None, "ds"]), {"tree": t, "ext": ext}, workers=w,
+                              probe="plain_links")
+                out.append(with_kills(b, []))
+    return out
+
+
+XFS_MODES = ("local", "tmpdir", "sim")
+
+
+def xfs_cases(rng, tier):
+    """crash points when local_path and the default temporary directory are on DIFFERENT file systems (local on the second
+    one / $TMPDIR on the second one; "sim": os.rename between different directories fails with EXDEV): every kill point
+    of the first call, kill points of a call over an interrupted copy, for the directed configurations of both functions
+    and all three source formats"""
+    out = []
+    bases = directed_bases()
+    for bi, b in enumerate(bases):
+        modes = XFS_MODES if tier == "thorough" else (XFS_MODES[bi % 3],)
+        for mode in modes:
+            bx = dict(b, xfs=mode)
+            n = count_ops(bx)
+            out.append(with_kills(bx, []))
+            for k in range(1, n + 1):
+                out.append(with_kills(bx, [k]))
+            k1 = rng.randint(2, max(2, n))
+            n2 = count_ops(bx, [k1])
+            for k2 in (range(1, n2 + 1) if tier == "thorough" else sorted(rng.sample(range(1, n2 + 1), min(n2, 3)))):
+                out.append(with_kills(bx, [k1, k2]))
+    return out
+
+
 def random_base(rng):
     variant = rng.choice(["folder", "image"])
     fmt = rng.choice(["plain", "zip", "zips"])
@@ -1406,6 +1695,8 @@ def random_base(rng):
     c = base_case(variant, fmt, rel, gen_source(rng, fmt, variant), local_exists=rng.random() < 0.6)
     if fmt == "zip" and rel == "ds.v2" and rng.random() < 0.5:
         c["decoy_zip"] = "ds.zip"
+    if fmt == "plain":
+        c["workers"] = rng.choice([0, 1, 2, 3, 4])     # (ignored by the plain format today - generated all the same)
     if variant == "image" and rel is not None and fmt == "zip" and rng.random() < 0.5:
         c["rel_zip_suffix"] = True
     if fmt == "plain" and rel is not None and rng.random() < 0.1:
@@ -1429,7 +1720,7 @@ def count_ops(case, kills=()):
             one_call(case, fn, root, g, l, k)
         return len(one_call(case, fn, root, g, l, None)["trace"])
     finally:
-        shutil.rmtree(root, ignore_errors=True)
+        cleanup_sandbox(root)
 
 
 def with_kills(base, kills):
@@ -1439,7 +1730,8 @@ def with_kills(base, kills):
 
 
 def gen_cases(rng, tier):
-    out = []
+    out = xfs_cases(rng, tier)
+    out += plain_links_matrix(rng, tier)
     bases = directed_bases()
     n_rand = 14 if tier == "quick" else 60
     bases += [random_base(rng) for _ in range(n_rand)]
@@ -1540,7 +1832,7 @@ def torn_cases(rng, tier, bases):
                 one_call(case, fn, root, g, l, k)
             tr = one_call(dict(case, torn=False), fn, root, g, l, None)["trace"]
         finally:
-            shutil.rmtree(root, ignore_errors=True)
+            cleanup_sandbox(root)
         return [i + 1 for i, op in enumerate(tr) if op[0] == "write" and len(op[2]) >= 2], len(tr)
 
     for bi, b in enumerate(bases):
@@ -1603,7 +1895,7 @@ def strace_cases(rng):
                     continue
                 calls = parse_strace(log, root)
             finally:
-                shutil.rmtree(root, ignore_errors=True)
+                cleanup_sandbox(root)
             out.append(dict(c, strace=[None, 0]))      # the whole call at system-call level, not interrupted
             for name, ordinal, done in calls:
                 cc = dict(c)
@@ -1613,6 +1905,8 @@ def strace_cases(rng):
 
 
 def search_cases(rng, tier):
+    yield from xfs_cases(rng, "thorough")
+    yield from plain_links_matrix(rng, "quick")
     for b in dotted_rel_bases() + rich_bases(rng, 20):
         yield with_kills(b, [])
     for b in directed_bases():
@@ -1668,7 +1962,10 @@ def shrink(case):
                     yield dict(case, src={"items": items[:i] + [[nm, {"zip": rest}]] + items[i + 1:]})
     if case["fmt"] == "plain" and not case.get("strace"):
         for t in _shrink_tree(case["src"]["tree"]):
-            yield dict(case, src={"tree": t})
+            yield dict(case, src=prune_links({**case["src"], "tree": t}))
+        if case["src"].get("ext"):
+            for t in _shrink_tree(case["src"]["ext"]):
+                yield dict(case, src=prune_links({**case["src"], "ext": t}))
     if case["rel"] not in (None, "ds") and not case.get("strace"):
         yield {k: v for k, v in dict(case, rel="ds").items() if k not in ("decoy_zip", "probe")}
     if case["fmt"] == "plain" and len(case["src"]["tree"]) > 1 and not case.get("strace") and False:
@@ -1745,8 +2042,12 @@ def features(case, obs):
                 if att["trace"][-1][0] == "create" and att["trace"][-1][1][-1] == ENAME:
                     f.append("killed_between_end_marker_create_and_write"
                              + ("(SIGKILL at the write system call)" if att["kill_at"] == "SIGKILL" else ""))
-    if any("l" in node for _, node in (case["src"].get("tree") or [])):
+    if has_links(case["src"].get("tree") or []):
         f.append("source_has_symlink")
+        f.append("source_has_symlink,workers=%d" % case.get("workers", 0))
+        f += link_kinds(case["src"])
+    if case.get("xfs"):
+        f.append("xfs=%s(%s)" % (case["xfs"], obs.get("xfs")))
     try:
         paths = list(expected_content(case))
     except Exception:
@@ -1778,5 +2079,5 @@ def nontrivial_key(case, obs):
     if case.get("measure") or (not killed and not any(a.get("pools") for a in atts)):
         return None
     return (case["variant"], case["fmt"], case["rel"], case["init"], tuple(case["kills"]), str(case.get("strace")),
-            case.get("workers", 0), bool(case.get("torn")),
+            case.get("workers", 0), bool(case.get("torn")), case.get("xfs"),
             tuple(_state_class(case, a["tree"]) for a in killed), json.dumps(case["src"], sort_keys=True)[:200])
